@@ -14,7 +14,8 @@ Three layers (DESIGN.md, C17), every case is ONE point of a finite tree:
               lerax's post-step arrays into gymnasium's MjData, so observation, reward, every info
               entry and `terminated` are computed by gymnasium's code on exactly the physical state
               lerax reached; lerax's observation / reward / terminal / transition_info must match at
-              1e-4 * max(1, |ref|).  The pre-step data is gymnasium's reading of the true pre-state
+              1e-4 * max(1, |ref|) (reward and reward terms: 1e-4 * max(min(1, sum |reference terms|), |ref|)
+              + 2e-5; pure action costs: 1e-4 relative).  The pre-step data is gymnasium's reading of the true pre-state
               (after a reset: its own `set_state`; later: the arrays lerax holds after the previous
               step, which is what gymnasium would hold as well).  The injected contact-force array is
               `mjx.rne_postconstraint(model, data).cfrc_ext` of lerax's post-step state (the MJX
@@ -22,9 +23,11 @@ Three layers (DESIGN.md, C17), every case is ONE point of a finite tree:
               "Poked" cases overwrite ONE coordinate of the post-step arrays identically on both sides
               to straddle every documented threshold (health ranges, velocity / force clips).
   transition  from reset and depth-1 states only: `set_state` + gymnasium's real `step()` vs lerax
-              `transition`: post-step qpos / qvel at 1e-3 * max(1, |ref|) and the control interval.
-              Ill-conditioned starts (reference moves > 10 x tolerance under a 1e-6 perturbation) are
-              skipped and counted.
+              `transition`: post-step qpos / qvel and every derived array the semantic functions read
+              (xpos, xipos, xmat, cinert, cvel, site_xpos, tendons, qfrc_actuator) at
+              (1e-3 + 20 x sens) * max(1, |ref|), qfrc_constraint at 5e-2 of its largest entry, and the
+              control interval; sens = how far the reference's own result moves under a 1e-6
+              perturbation of the start state (starts with sens > 1e-2 are skipped and counted).
 
 Signatures: C17/mujoco/<Env>/<layer>/<quantity>/<class>.  The class of a mismatch is found by
 re-judging lerax's functions on *completed* states (pre-state with the reference's forward
@@ -92,7 +95,11 @@ INFO_ALIAS = {
 # arrays of the MJX data that are written into the reference's MjData (name -> lives in d._impl?)
 INJECT = ("qpos", "qvel", "ctrl", "xpos", "xipos", "xmat", "cinert", "cvel", "qfrc_actuator", "qfrc_constraint",
           "site_xpos", "ten_length", "ten_velocity")
+ACTION_COST_KEYS = ("reward_ctrl", "reward_quadctrl")
+REWARD_TERM_KEYS = ("reward_forward", "reward_ctrl", "reward_contact", "reward_survive", "reward_linup", "reward_quadctrl", "reward_impact",
+                    "reward_dist", "reward_near", "distance_penalty", "velocity_penalty")
 IMPL = ("cinert", "ten_velocity", "cfrc_ext")
+KINEMATIC = ("xpos", "xipos", "xmat", "cinert", "cvel", "site_xpos", "ten_length", "ten_velocity", "qfrc_actuator")
 DERIVED = ("xpos", "xipos", "cinert", "cvel", "site_xpos")  # what forward kinematics fills in
 
 
@@ -346,15 +353,6 @@ def apply_poke(state, poke):
     return state
 
 
-def poke_arrays(arrays, poke):
-    arrays = dict(arrays)
-    for name, idx, val in poke or ():
-        a = np.array(arrays[name])
-        a[tuple(idx)] = np.float32(val)
-        arrays[name] = a
-    return arrays
-
-
 def complete_pre(state, derived):
     for k, v in derived.items():
         cur = np.asarray(dget(state.sim_state, k))
@@ -363,13 +361,14 @@ def complete_pre(state, derived):
     return state
 
 
-def close(got, ref, tol=1e-4):
+def close(got, ref, tol=1e-4, floor=1.0, absolute=0.0):
+    """|got - ref| <= tol * max(floor, |ref|) + absolute, elementwise (equal infinities / NaNs agree)."""
     got = np.asarray(got, dtype=np.float64)
     ref = np.asarray(ref, dtype=np.float64)
     if got.shape != ref.shape:
         return False
     with np.errstate(invalid="ignore"):
-        ok = (np.abs(got - ref) <= tol * np.maximum(1.0, np.abs(ref))) | (got == ref) | (np.isnan(got) & np.isnan(ref))
+        ok = (np.abs(got - ref) <= tol * np.maximum(floor, np.abs(ref)) + absolute) | (got == ref) | (np.isnan(got) & np.isnan(ref))
     return bool(np.all(ok))
 
 
@@ -516,12 +515,15 @@ def _judge_semantic(ctx, name, rf, c, i, v0, v1, v2, ref, cfrc, post):
             return "stale-kinematics-at-reset+cfrc_ext-not-computed" if (first and pre_mattered) else "cfrc_ext-not-computed"
         return "differs-even-with-contact-forces-supplied" if cfrc_mattered else "differs"
 
-    def report(quantity, get, refval, what):
+    def report(quantity, get, refval, what, floor=1.0, absolute=0.0):
         g0, g1, g2 = get(v0), get(v1), get(v2)
-        ok0, ok1, ok2 = close(g0, refval), close(g1, refval), close(g2, refval)
+        ok0, ok2 = close(g0, refval, 1e-4, floor, absolute), close(g2, refval, 1e-4, floor, absolute)
+        ok1 = True
+        if not ok0:  # "does the completion repair it" is asked strictly, so that a class never hinges on the pass/fail tolerance
+            ok1, ok2 = (close(g, refval, 1e-5, floor, absolute / 10) for g in (g1, g2))
         if _DEBUG and ok0 and np.asarray(g0).size:
             with np.errstate(invalid="ignore"):
-                e = np.nanmax(np.where(np.asarray(g0, dtype=np.float64) == refval, 0.0, np.abs(np.asarray(g0, dtype=np.float64) - refval) / np.maximum(1.0, np.abs(refval))))
+                e = np.nanmax(np.where(np.asarray(g0, dtype=np.float64) == refval, 0.0, np.abs(np.asarray(g0, dtype=np.float64) - refval) / (1e-4 * np.maximum(floor, np.abs(refval)) + absolute)))
             if e > _DEBUG_MAX.get((name, quantity), 0.0):
                 _DEBUG_MAX[(name, quantity)] = float(e)
         cls = classify(ok0, ok1, ok2, not close(g1, g0, 1e-7), not close(g2, g1, 1e-7))
@@ -541,20 +543,26 @@ def _judge_semantic(ctx, name, rf, c, i, v0, v1, v2, ref, cfrc, post):
     else:
         for sl, a, b in rf.layout:
             report(f"observation/{sl}", lambda v, a=a, b=b: np.asarray(v["obs"])[a:b], obs_ref[a:b], f"observation slice '{sl}' [{a}:{b}]")
+    # reward and reward terms: tolerance relative to the size of the reference's own reward terms (a reward made of small
+    # terms is judged finely), plus 2e-5 absolute for float32 centre-of-mass differences divided by dt
+    terms = [abs(float(v)) for kk, v in info_ref.items() if kk in REWARD_TERM_KEYS and np.ndim(v) == 0]
+    rfloor = min(1.0, sum(terms)) if terms else 1.0
     # info entries present on both sides
     comp_bad = False
     for lk, gk, sign in _info_items(name, v0["info"]):
         if gk not in info_ref:
             ctx.outcome(f"mujoco:info-only-in-lerax:{name}", lk)
             continue
-        bad = report(f"info/{lk}", lambda v, lk=lk: np.asarray(v["info"][lk]), sign * np.asarray(info_ref[gk], dtype=np.float64), f"info['{lk}'] (reference info['{gk}'])")
+        # pure action costs are judged relatively (their weights are as small as 1e-4); reward terms like the reward itself; the rest at max(1, |ref|)
+        fl, ab = (0.0, 1e-7) if gk in ACTION_COST_KEYS else (rfloor, 2e-5) if gk in REWARD_TERM_KEYS else (1.0, 0.0)
+        bad = report(f"info/{lk}", lambda v, lk=lk: np.asarray(v["info"][lk]), sign * np.asarray(info_ref[gk], dtype=np.float64), f"info['{lk}'] (reference info['{gk}'])", fl, ab)
         comp_bad = comp_bad or bad
     for gk in info_ref:
         if gk not in {g for _, g, _ in _info_items(name, v0["info"])}:
             ctx.outcome(f"mujoco:info-only-in-reference:{name}", gk)
     # reward: reported on its own only when no info entry already explains it
     n_before = len(out)
-    if report("reward", lambda v: np.asarray(v["reward"]), r_ref, "reward") and comp_bad:
+    if report("reward", lambda v: np.asarray(v["reward"]), r_ref, "reward", rfloor, 2e-5) and comp_bad:
         del out[n_before:]
     # termination / truncation
     for v, cls in ((v0, None), (v2, "with-contact-forces-supplied")):
@@ -610,6 +618,19 @@ def clause_transition(cases, ctx: Ctx):
                 out.append((i, f"{P}/{name}/transition/qpos", f"{lab}: post-step qpos {worst(q1, q_ref)} (tolerance {tol:.2e} relative)"))
             if not close(v1, v_ref, tol):
                 out.append((i, f"{P}/{name}/transition/qvel", f"{lab}: post-step qvel {worst(v1, v_ref)} (tolerance {tol:.2e} relative)"))
+            # every derived array the semantic functions read, as left behind by the real step on both sides
+            for arr in KINEMATIC:
+                refa = np.asarray(getattr(rf.g.data, arr), dtype=np.float64).reshape(-1)
+                if refa.size and not close(np.asarray(dget(post.sim_state, arr), dtype=np.float64).reshape(-1), refa, tol):
+                    out.append((i, f"{P}/{name}/transition/{arr}", f"{lab}: post-step {arr} {worst(np.asarray(dget(post.sim_state, arr)), refa)} (tolerance {tol:.2e} relative)"))
+            refa = np.asarray(rf.g.data.qfrc_constraint, dtype=np.float64)
+            if refa.size and not close(np.asarray(post.sim_state.qfrc_constraint, dtype=np.float64), refa, 5e-2 + 20.0 * sens, max(1.0, float(np.max(np.abs(refa))))):
+                out.append((i, f"{P}/{name}/transition/qfrc_constraint", f"{lab}: post-step qfrc_constraint {worst(post.sim_state.qfrc_constraint, refa)} (5e-2 of the largest entry)"))
+            if lx.rne is not None:  # premise of the semantic layer, recorded, never judged: MJX's rne_postconstraint vs mj_rnePostConstraint
+                refa = np.asarray(rf.g.data.cfrc_ext, dtype=np.float64)
+                if float(np.max(np.abs(refa))) > 1e-3:
+                    agree = close(lx.run_rne([post])[0], refa, 5e-2, max(1.0, float(np.max(np.abs(refa)))))
+                    ctx.outcome(f"mujoco:rne_postconstraint-{'agrees-with' if agree else 'DIFFERS-from'}-mj_rnePostConstraint:{name}", k)
             dt = float(np.asarray(post.t)) - float(np.asarray(pre.t))
             if abs(dt - rf.g.dt) > 1e-6:
                 out.append((i, f"{P}/{name}/transition/control-interval", f"{lab}: lerax clock advanced by {dt}, reference dt = {rf.g.dt}"))
